@@ -85,8 +85,11 @@ field("treename", Str)
 
 # ---------------------------------------------------------------- IR: blocks and statements
 BLOCK = P + "statement.block"
-field("_statements", TList(Ref))
-field("_variables", TList(Ref))
+ST = P + "statement."
+STMT = pseudo_base("verif.Statement", [ST + "block", ST + "set_var", ST + "push_back", ST + "container_clear", ST + "arbitrary_statement",
+                                       ST + "book_ttree", ST + "ttree_fill"])
+field("_statements", TList(RefOf(STMT)))
+field("_variables", TList(RefOf(P + "cpp_representation.cpp_value")))
 field("_rep_dict", TDict(Ref, Ref))
 field("_collection", RefOf(P + "cpp_representation.cpp_value"))
 field("_loop_variable", RefOf(P + "cpp_representation.cpp_value"))
@@ -96,10 +99,10 @@ field("_value", RefOf(P + "cpp_representation.cpp_value"))
 field("_line", Str)
 field("_tree_name", Str)
 field("_leaves", TList(TTup([Str, Ref])))
-field("_scope_stack", TList(Ref))
+field("_scope_stack", TList(RefOf(BLOCK)))
 field("_block", RefOf(BLOCK))
 field("_book_block", RefOf(BLOCK))
-field("_class_vars", TList(Ref))
+field("_class_vars", TList(RefOf(P + "cpp_representation.cpp_value")))
 field("_include_files", TList(Str))
 field("_link_libraries", TList(Str))
 field("_gc", RefOf(P + "generated_code.generated_code"))
